@@ -299,6 +299,7 @@ impl Shrinker {
                 let cands: Vec<OpKind> = match &w.threads[t][i].kind {
                     OpKind::Open { h, re, hay, start } if *start != Start::Zero => vec![OpKind::Open { h: *h, re: *re, hay: *hay, start: Start::Zero }],
                     OpKind::Drain { h } => vec![OpKind::Next { h: *h }],
+                    OpKind::Adaptor { h, kind, k } if *kind == 2 && *k > 0 => vec![OpKind::Adaptor { h: *h, kind: 2, k: *k - 1 }],
                     OpKind::Resume { h } => vec![OpKind::Next { h: *h }],
                     OpKind::ReplaceNested { re, hay, .. } => vec![OpKind::Find { re: *re, hay: *hay }],
                     OpKind::Replace { re, hay, .. } => vec![OpKind::Find { re: *re, hay: *hay }],
